@@ -138,7 +138,9 @@ type edgeRow struct {
 	g              guardSet
 }
 
+// util.SplitCommandWithParse runs back-tick / $(…) substitutions through go-shellwords (`sh -c`): an exec site
 var effectCallees = map[string]string{"exec.Command": "exec", "exec.CommandContext": "exec", "os.Setenv": "setenv",
+	"util.SplitCommandWithParse": "exec", "shellwords.Parse": "exec",
 	"os.Unsetenv": "setenv", "os.Clearenv": "setenv", "os.ExpandEnv": "expand", "syscall.Setenv": "setenv"}
 
 func (c *loadCtx) walkExpr(fn string, e ast.Node, g guardSet, sites *[]siteRow, edges *[]edgeRow) {
